@@ -76,7 +76,7 @@ def _job_worker(conn, cid, params, tier, seed, concrete, prop=None, sample=0, qu
                        failures=[f.to_json() for f in ex.failures], error=ex.error,
                        budget_exhausted=ex.budget_exhausted, vc=ex.vc_stats,
                        covered=ex.covered, samples=ex.samples, symbols=len(ex.symbols),
-                       unknown_branches=ex.unknown_branches,
+                       unknown_branches=ex.unknown_branches, notes=ex.notes,
                        frontier=[list(pf) for pf in ex.queue] if ex.sliced else [],
                        max_paths=b["max_paths"], timeout_s=b["timeout_s"])
         out["wall"] = time.time() - t0
@@ -108,6 +108,7 @@ def _merge(a, b):
     a["hard_timeout"] = bool(a.get("hard_timeout") or b.get("hard_timeout"))
     a["samples"] = ((a.get("samples") or []) + (b.get("samples") or []))[:3]
     a["symbols"] = max(a.get("symbols", 0), b.get("symbols", 0))
+    a["notes"] = (a.get("notes") or []) + [n for n in (b.get("notes") or []) if n not in (a.get("notes") or [])]
     return a
 
 
@@ -284,12 +285,17 @@ def check_property(prop, tier="quick", seed=0, only=None, verbose=False, record_
     samples = []
     per_contract = {}
     replay_jobs = []
+    all_notes = []
     sampled_runs = 0
     for j, r in zip(jobs, results):
         cid = j["cid"]
         if verbose and not j.get("sample"):
             print("JOB %s %s paths=%d wall=%.1f budget=%s" % (cid, _short(j["params"]), r.get("paths", 0), r.get("wall", 0), r.get("budget_exhausted")))
         sampled_runs += r.get("sampled_runs", 0)
+        for nt in r.get("notes") or []:
+            if nt not in all_notes:
+                all_notes.append(nt)
+                print("NOTE %s: %s" % (cid, nt[:300]))
         pc = per_contract.setdefault(cid, dict(jobs=0, paths=0, wall=0.0, labels=set(), failed=set()))
         pc["jobs"] += 1
         pc["paths"] += r.get("paths", 0)
@@ -362,7 +368,8 @@ def check_property(prop, tier="quick", seed=0, only=None, verbose=False, record_
                 known_hits.append((kf, f))
                 continue
             json.dump(rep, open(path, "w"), indent=1, default=str)
-            violations.append((cid, f["label"], path, ""))
+            # a U-mode obligation has no concrete witness: the replay file names the obligation and carries the solver output
+            violations.append((cid, f["label"], path, " no-failing-input-found" if reg[cid].mode == "U" else ""))
         elif f["kind"] == "unknown":
             was = baseline.get(prop, {}).get("%s::%s" % (cid, f["label"]))
             json.dump(rep, open(path, "w"), indent=1, default=str)
@@ -404,7 +411,7 @@ def check_property(prop, tier="quick", seed=0, only=None, verbose=False, record_
             print(msg)
 
     write_evidence(prop, tier, seed, cts, per_contract, obligations, n_obl, n_dis, tot_paths, vc, samples,
-                   wall, len(vio_seen), known_hits, undecided, errors, jobs, sampled_runs)
+                   wall, len(vio_seen), known_hits, undecided, errors, jobs, sampled_runs, all_notes)
 
     if record_baseline and not violations and not errors and not undecided:
         baseline[prop] = {"%s::%s" % k: v["status"] for k, v in sorted(obligations.items())}
@@ -445,7 +452,7 @@ def _jsonable(p):
 
 
 def write_evidence(prop, tier, seed, cts, per_contract, obligations, n_obl, n_dis, tot_paths, vc, samples,
-                   wall, n_viol, known_hits, undecided, errors, jobs, sampled_runs=0):
+                   wall, n_viol, known_hits, undecided, errors, jobs, sampled_runs=0, notes=()):
     lv = LEVELS.get(prop, {})
     level = lv.get("level", "other")
     modes = sorted({c.mode for c in cts})
@@ -479,6 +486,7 @@ def write_evidence(prop, tier, seed, cts, per_contract, obligations, n_obl, n_di
             proved_unbounded=[dict(contract=k[0], obligation=k[1]) for k in sorted(u_obl) if obligations[k]["status"] == "discharged"],
             bounded_count=n_obl - len(u_obl),
             sampled_native_runs=sampled_runs,
+            notes=list(notes),
             shapes=[dict(contract=j["cid"], params=_jsonable({k: v for k, v in j["params"].items() if not k.startswith("_")})) for j in jobs if not j.get("sample")][:200],
             backends=dict(z3=vc["z3"], cvc5=vc["cvc5"], trivially_true=vc["trivial"], solver_seconds=round(vc["solver_s"], 3)),
             per_contract={cid: dict(jobs=pc["jobs"], paths=pc["paths"], wall_s=round(pc["wall"], 2), obligations=len(pc["labels"])) for cid, pc in per_contract.items()},
